@@ -49,11 +49,14 @@ def main():
 
     eol = '\n' if args.eol else ''
     for fn in args.input_files:
-        for file_in in glob.iglob(fn):
+        # a name that exists is that file, whatever glob characters it holds
+        for file_in in ([fn] if os.path.isfile(fn) else glob.iglob(fn)):
             if not os.path.isfile(file_in):
                 logger.error('Could not open file "%s"' % (file_in))
+                continue
 
-            fd_out = tempfile.TemporaryFile(mode='w+', encoding='ascii')
+            # written and read back as it is: one character per byte, no newline translation
+            fd_out = tempfile.TemporaryFile(mode='w+', encoding='latin-1', newline='')
             src = pyx12.x12file.X12Reader(file_in)
             for seg_data in src:
                 if args.fixcounting:
@@ -75,11 +78,11 @@ def main():
 
             fd_out.seek(0)
             if args.outputfile:
-                with open(args.outputfile, mode='w', encoding='ascii') as fd_dest:
+                with open(args.outputfile, mode='w', encoding='latin-1', newline='') as fd_dest:
                     fd_dest.write(fd_out.read())
             else:
                 if args.inplace:
-                    with open(file_in, mode='w', encoding='ascii') as fd_orig:
+                    with open(file_in, mode='w', encoding='latin-1', newline='') as fd_orig:
                         fd_orig.write(fd_out.read())
                 else:
                     sys.stdout.write(fd_out.read())
